@@ -38,6 +38,10 @@ def conc_runs(tier, seed):
             runs.append({"name": f"conc-{cfgname}-{ctag}-{s}", "timeout": 600,
                          "args": ["-mode", "conc", "-config", cfgname, "-cache", cache, "-seed", seed * 100 + s, "-hist", 2 if tier == "quick" else 4,
                                   "-batches", 40, "-readers", 8, "-rank", 1]})
+        # a second shard on the same bounded cache manager receives a write stream too (multi-shard node)
+        runs.append({"name": f"conc-other-{s}", "timeout": 600,
+                     "args": ["-mode", "conc", "-other", "-config", "kitchen", "-nids", 200, "-cache", "2000000", "-seed", seed * 100 + 30 + s,
+                              "-hist", 2, "-batches", 30, "-readers", 8, "-rank", 1]})
     # cold-start bursts of 16 searchers on a large graph (reopen, burst, join; then with the writer)
     for s in range(1 if tier == "quick" else 4):
         runs.append({"name": f"conc-cold-off-{s}", "timeout": 900, "tlc_timeout": 1800,
